@@ -1,2 +1,2 @@
 (* C15 — lemmas live in ProofsMap / ProofsCookie / ProofsUri; this file re-exports them. *)
-From Falcon.C15 Require Export ProofsMap ProofsCookie ProofsUri ProofsOrder.
+From Falcon.C15 Require Export ProofsMap ProofsCookie ProofsUri ProofsOrder ProofsCookieText.
